@@ -17,10 +17,13 @@
 (* at the granularity of one cell (aligned word stores are atomic on the supported targets;   *)
 (* compiler/CPU reordering of the plain flag store is outside this model - assumption).       *)
 (* PublishEarly = TRUE is the mutant "set the flag before filling the table".                 *)
+(* Rezero = TRUE is carquet_init as found (memset of the global first); FALSE is the repair   *)
+(* (the zero-initialised global is never cleared; every store writes the final value).        *)
 EXTENDS Naturals, Sequences, FiniteSets, TLC
 CONSTANTS NThreads, K,            \* K cells per table
           Apis,                   \* subset of {"crc", "cpu", "kernel"}: what a thread may call first
-          PublishEarly            \* BOOLEAN
+          PublishEarly,           \* BOOLEAN
+          Rezero                  \* BOOLEAN: carquet_init starts with memset(&g_cpu_info, 0) (the code as found)
 VARIABLES flag,                   \* [{"crc","cpu","disp"} -> 0..1]
           crc,                    \* [1..2 -> [1..K -> {"U","F","G"}]]  unset / final / garbage
           cpu,                    \* [1..2 -> 0..1]  has_sse42, has_avx2 (true value 1)
@@ -70,7 +73,7 @@ CpuStart(t) == /\ api[t] = "cpu" /\ CpuCall(t, "start", "cpu_use")
                /\ UNCHANGED <<flag, crc, cpu, disp, api, k, sawSse, sawAvx, obs>>
 CpuCheck(t) == /\ pc[t] = "cpu_check"
                /\ IF flag.cpu = 1 THEN Ret(t)
-                  ELSE Goto(t, IF PublishEarly THEN "cpu_set" ELSE "cpu_zero") /\ UNCHANGED stack
+                  ELSE Goto(t, IF PublishEarly THEN "cpu_set" ELSE IF Rezero THEN "cpu_zero" ELSE "cpu_detect") /\ UNCHANGED stack
                /\ SetK(t, 1) /\ UNCHANGED <<flag, crc, cpu, disp, api, sawSse, sawAvx, obs>>
 CpuZero(t) == /\ pc[t] = "cpu_zero"                         \* memset(&g_cpu_info, 0, ...)
               /\ cpu' = [cpu EXCEPT ![k[t]] = 0]
@@ -82,7 +85,7 @@ CpuDetect(t) == /\ pc[t] = "cpu_detect"
                                ELSE SetK(t, k[t] + 1) /\ UNCHANGED <<pc, stack>>
                 /\ UNCHANGED <<flag, crc, disp, api, sawSse, sawAvx, obs>>
 CpuSet(t) == /\ pc[t] = "cpu_set" /\ flag' = [flag EXCEPT !.cpu = 1]
-             /\ IF PublishEarly THEN Goto(t, "cpu_zero") /\ UNCHANGED stack ELSE Ret(t)
+             /\ IF PublishEarly THEN Goto(t, IF Rezero THEN "cpu_zero" ELSE "cpu_detect") /\ UNCHANGED stack ELSE Ret(t)
              /\ UNCHANGED <<crc, cpu, disp, api, k, sawSse, sawAvx, obs>>
 CpuUse(t) == /\ pc[t] = "cpu_use"                           \* the caller of carquet_get_cpu_info reads a bit
              /\ \E b \in 1..2 : obs' = [obs EXCEPT ![t] = Append(@, <<"cpu", cpu[b]>>)]
@@ -140,8 +143,9 @@ UseSeesFinalEquivalent ==
                         /\ o[1] = "kernel" => o[2] \in {"scalar", "sse", "avx2"}
 \* no cell ever holds a value that is not final-equivalent once written (crc tables)
 CrcNeverGarbage == \A lv \in 1..2, c \in 1..K : crc[lv][c] # "G"
-\* strict variants: what an external caller of carquet_get_cpu_info may see. NOT implied by the
-\* code: a second initialiser re-zeroes g_cpu_info after the flag has been published.
+\* what an external caller of carquet_get_cpu_info sees: the true feature bits. With Rezero a
+\* second initialiser re-zeroes g_cpu_info after the flag has been published (TLC counterexample,
+\* reproduced on the real code by the fresh-process trials); without it the property holds.
 CpuInfoStable == \A o \in Observed : o[1] = "cpu" => o[2] = 1
 KernelUseSeesFinal == \A o \in Observed : o[1] = "kernel" => o[2] \in {"sse", "avx2"}
 AllDone == \A t \in Thr : pc[t] = "done"
